@@ -94,7 +94,9 @@ func schedWorlds(quick bool) []schedWorld {
 	// two policies on w2 whose union is every port of every protocol while neither is complete (the second only adds ports to a protocol the first mentions)
 	npMost := wm.NP{NS: "ns1", Name: "most", PodSel: *wm.ML("app", "b"), Types: []string{"Ingress"}, Ingress: []wm.NPRule{{Peers: []wm.NPPeer{{Pod: all}}, Ports: []wm.NPPort{{Proto: "TCP"}, {Proto: "UDP"}, {HasPort: true, Num: 1, End: 100, Proto: "SCTP"}}}}}
 	npRest := wm.NP{NS: "ns1", Name: "rest", PodSel: *wm.ML("app", "b"), Types: []string{"Ingress"}, Ingress: []wm.NPRule{{Peers: []wm.NPPeer{{Pod: all}}, Ports: []wm.NPPort{{HasPort: true, Num: 101, End: 65535, Proto: "SCTP"}}}}}
-	ws = append(ws, &wm.World{NSs: nss[:1], WLs: wls[:2], NPs: []wm.NP{npAllIP, npCluster, npThird, npMost, npRest}})
+	// w1 is opened to the entire cluster by two policies on one protocol and different ports, w2 by one of them only
+	npCluster2 := wm.NP{NS: "ns1", Name: "cluster-9090", PodSel: *wm.ML("app", "a"), Types: []string{"Ingress", "Egress"}, Ingress: []wm.NPRule{{Peers: []wm.NPPeer{{NSSel: all}}, Ports: []wm.NPPort{{HasPort: true, Num: 9090}}}}, Egress: []wm.NPRule{{Peers: []wm.NPPeer{{NSSel: all}}, Ports: []wm.NPPort{{HasPort: true, Num: 5353, Proto: "UDP"}}}}}
+	ws = append(ws, &wm.World{NSs: nss[:1], WLs: wls[:2], NPs: []wm.NP{npAllIP, npCluster, npThird, npMost, npRest, npCluster2}})
 	// exposure-rich worlds from the exposure alphabet
 	rules := expo.Rules()
 	for _, rs := range [][4]int{{3, 40, 61, 90}, {25, 7, 100, 12}, {117, 50, 33, 71}} {
